@@ -326,3 +326,6 @@ b("C05-b9", "C05", CLIENT, "                for update in proto.read_pkt_seq():\
 b("C05-b10", "C05", CLIENT, "            if parts[0] == b\"shallow-info\":\n", "            if parts[0] == b\"shallow-update\":\n", "R05.8")
 n("C05-n9", "C05", CLIENT, "                for update in proto.read_pkt_seq():\n                    raise GitProtocolError(\n                        f\"unexpected shallow update {update!r} without deepening\"\n                    )\n",
   "                updates = list(proto.read_pkt_seq())\n                if updates:\n                    raise GitProtocolError(\n                        f\"unexpected shallow update {updates[0]!r} without deepening\"\n                    )\n")
+b("C05-b11", "C05", REPO_PY, "            or unshallow\n            or getattr(graph_walker, \"client_shallow\", set())\n        ):", "            or unshallow\n        ):", "R05.9")
+n("C05-n10", "C05", REPO_PY, "        if (\n            getattr(graph_walker, \"shallow\", set())\n            or unshallow\n            or getattr(graph_walker, \"client_shallow\", set())\n        ):\n            # TODO: filter the haves commits from iter_shas. the specific",
+  "        declared_by_client = getattr(graph_walker, \"client_shallow\", set())\n        if (\n            declared_by_client\n            or getattr(graph_walker, \"shallow\", set())\n            or unshallow\n        ):\n            # TODO: filter the haves commits from iter_shas. the specific")
